@@ -1,7 +1,7 @@
 #!/bin/bash
 # usage: tools/mutate.sh <prop> <file-relative-to-repo> <old> <new> [tier]   -- applies a textual mutation in a scratch worktree and runs the check against it
 set -e
-WT=/tmp/wt-mut
+WT=${WT:-/tmp/wt-mut}
 if [ ! -d $WT ]; then git -C /repo worktree add -q --detach $WT HEAD; fi
 cd $WT && git checkout -q --detach $(git -C /repo rev-parse HEAD) && git checkout -q -- .
 /venv/bin/python - "$2" "$3" "$4" <<'PY'
